@@ -1338,7 +1338,16 @@ def _independent_predicate(ctx, fact, env):
 
 def _witness(ctx, cons, goal, e, size, relevant, nonlinear=()):
     """small integer values of the base atoms under which all constraints hold and the goal fails"""
-    base = sorted(a for a in relevant if a not in ctx.divs)
+    base = set(a for a in relevant if a not in ctx.divs)
+    # constraints about other quantities (x.size() == y.size() next to a divisor win.size() - noverlap) are part of the instance
+    # too: it has to pass them, so their quantities get values as well
+    for c in cons:
+        for a in c.atoms():
+            if a in ctx.divs:
+                base |= {b for b in ctx.divs[a][0].atoms() if b not in ctx.divs}
+            else:
+                base.add(a)
+    base = sorted(base)
     if len(base) > 5:
         return None
     if any(a.startswith("l:") or a.startswith("cur:") for a in base):
